@@ -361,10 +361,11 @@ pub fn resolve<'a>(sf: &'a SourceFile, path: &str) -> std::result::Result<Cur<'a
                     if self.hit.is_none() {
                         let texts: Vec<String> = blk.stmts.iter().map(|s| norm(self.sf.slice(self.sf.range(s.span())))).collect();
                         if let Some(i) = texts.iter().position(|t| t.starts_with(&self.wa)) {
-                            if self.wb == "$" {
-                                // `A .. $`: through the last statement before the block's tail expression
+                            if self.wb == "$" || self.wb == "$$" {
+                                // `A .. $`: through the last statement before the block's tail expression;
+                                // `A .. $$`: through the tail expression
                                 let mut end = blk.stmts.len();
-                                if let Some(Stmt::Expr(_, None)) = blk.stmts.last() {
+                                if let (Some(Stmt::Expr(_, None)), true) = (blk.stmts.last(), self.wb == "$") {
                                     end -= 1;
                                 }
                                 if end > i {
